@@ -37,6 +37,7 @@ type ConnSpec struct {
 	WaitNote string
 	IdleFor  int    // virtual seconds to sleep before End
 	EndNote  string // wait for this note before End
+	Sync     bool   // wait for the answers to everything sent so far before sending the next segment
 	After    int    // >0: this connection is opened by the thread of connection number After (1-based) once that one has ended
 	Name     string
 }
@@ -174,12 +175,22 @@ func runClient(w *World, ci int, name string, cs *ConnSpec) {
 		}
 	}
 	inSeg := 0
+	expectSoFar := 0
 	for _, op := range cs.Ops {
 		k++
 		if op == "starttls" {
 			flush()
+			// a conforming client has nothing outstanding when it sends StartTLS (RFC 4511 4.14.1)
+			if cs.Read != "none" {
+				cl.ReadFrames(expectSoFar)
+			}
 			_ = cl.Send(reqBytes(op, msgID(ci, k)))
-			cl.ReadFrames(len(cl.Frames) + 1) // the StartTLS response, in plaintext
+			expectSoFar++
+			if cs.Read == "none" {
+				cl.ReadFrames(len(cl.Frames) + 1)
+			} else {
+				cl.ReadFrames(expectSoFar) // the StartTLS response, in plaintext
+			}
 			w.Notes[name+"-starttls-response"]++
 			if err := cl.UpgradeTLS(ccfg); err != nil {
 				w.Notes[name+"-handshake-failed"]++
@@ -191,11 +202,15 @@ func runClient(w *World, ci int, name string, cs *ConnSpec) {
 			continue
 		}
 		pending = append(pending, reqBytes(op, msgID(ci, k))...)
+		expectSoFar += framesFor(cs.H[k])
 		inSeg++
 		if segs != nil && si < len(segs) && inSeg == segs[si] {
 			flush()
 			si++
 			inSeg = 0
+			if cs.Sync {
+				cl.ReadFrames(expectSoFar)
+			}
 		}
 	}
 	flush()
